@@ -128,7 +128,9 @@ pub fn run(args: &Args, rng: &mut Rng, sink: &mut Sink) {
     let mut pat_rot = 0usize;
     for &t in &types {
         for w in 0..=t {
-            for k in 0..per_pair {
+            // quick tier: the second (fixed-pattern) block only at the boundary widths
+            let n_here = if args.thorough() || w <= 2 || w + 1 >= t || w == t / 2 { per_pair } else { 1 };
+            for k in 0..n_here {
                 // first pattern always random, the others rotate through the fixed patterns
                 let pat = if k == 0 {
                     "random"
@@ -149,13 +151,22 @@ pub fn run(args: &Args, rng: &mut Rng, sink: &mut Sink) {
                     }
                 };
                 let unp = unpack_t(t, w, &packed, 1024, fill);
-                let unp = match unp {
+                let mut unp = match unp {
                     Ok(u) => u,
                     Err(_) => {
                         sink.oracle_fail(None, "unchecked_unpack panicked on a call that satisfies its contract", case);
                         continue;
                     }
                 };
+                let mut packed = packed;
+                // self-test of the check (CONTRIB "sanity test"): HX_C28_PLANT corrupts what is RECORDED as the
+                // implementation's output for one case, so that ./check must report it. Never set in normal runs.
+                if crate::common::plant("fl-diff") && t == 16 && w == 5 && k == 0 {
+                    packed[3] ^= 1; // recorded packed word differs from the model, oracle unaffected
+                }
+                if crate::common::plant("fl-oracle") && t == 32 && w == 7 && k == 0 {
+                    unp[100] ^= 1; // the recorded unpacked value is wrong: oracle failure with this input
+                }
                 // direct oracle: unpack (pack v) = v for values < 2^W
                 if unp == vals {
                     sink.oracle_ok();
